@@ -267,6 +267,40 @@ def _describe(v):
     return {'k': 'other', 't': repr(v)}
 
 
+# every KIND of iterable a Regions constructor / extend can be given; iteration order = xs
+ITER_KINDS = ['list', 'tuple', 'generator', 'iter', 'map', 'filter', 'reversed', 'dict_values', 'ndarray', 'regions']
+ONE_SHOT = {'generator', 'iter', 'map', 'filter', 'reversed'}      # can be traversed only once
+
+
+def make_iterable(kind, xs):
+    from regions import Regions
+    xs = list(xs)
+    if kind == 'list':
+        return xs
+    if kind == 'tuple':
+        return tuple(xs)
+    if kind == 'generator':
+        return (x for x in xs)
+    if kind == 'iter':
+        return iter(xs)
+    if kind == 'map':
+        return map(lambda x: x, xs)
+    if kind == 'filter':
+        return filter(lambda x: True, xs)
+    if kind == 'reversed':
+        return reversed(xs[::-1])
+    if kind == 'dict_values':
+        return dict(enumerate(xs)).values()
+    if kind == 'ndarray':
+        a = np.empty(len(xs), dtype=object)
+        for i, x in enumerate(xs):
+            a[i] = x
+        return a
+    if kind == 'regions':
+        return Regions(xs)
+    raise ValueError(kind)
+
+
 def tok(x):
     return x if isinstance(x, str) else repr(x)
 
@@ -657,9 +691,27 @@ class Check(PropertyCheck):
             if r < 0.1:
                 arg = None
             else:
-                arg = {'xs': [self._member(rng, 0.12) for _ in range(rng.choice([0, 1, 2, 3]))], 'tuple': rng.random() < 0.15}
+                arg = self._iter_arg(rng, [self._member(rng, 0.12) for _ in range(rng.choice([0, 1, 2, 3]))], True)
             ops = [{'o': 'list', 'l': self._list_op(rng)} for _ in range(rng.randint(0, 12))]
             cases.append({'kind': 'list', 'arg': arg, 'ops': ops})
+        # every iterable kind x {all valid, an invalid member first / middle / last} x {constructor, extend}
+        bad_pool = ['None', 'str:abc', 'i:5', 'f:5/2', 'pix:1,2', 'list:1,2', 'dict:']
+        for kind in ITER_KINDS:
+            for n in (0, 1, 3):
+                for pos in (None, 0, n // 2, n - 1):
+                    if pos is not None and (n == 0 or (n == 1 and pos != 0)):
+                        continue
+                    for bad in ([None] if pos is None else rng.sample(bad_pool, 3)):
+                        xs = [rng.choice(['reg:circleP', 'reg:circleS', 'reg:compP', 'reg:c4', 'reg:c7', 'reg:c9']) for _ in range(n)]
+                        if pos is not None:
+                            xs[pos] = bad
+                        k = 'list' if (kind == 'regions' and pos is not None) else kind
+                        cases.append({'kind': 'list', 'arg': {'xs': xs, 'kind': k},
+                                      'ops': [{'o': 'list', 'l': {'o': 'append', 'x': 'reg:c4'}}], 'grp': 'iterables'})
+                        if kind != 'regions':
+                            cases.append({'kind': 'list', 'arg': {'xs': ['reg:c7'], 'kind': 'list'},
+                                          'ops': [{'o': 'list', 'l': {'o': 'extend_list', 'xs': xs, 'kind': kind}},
+                                                  {'o': 'list', 'l': {'o': 'append', 'x': 'reg:c9'}}], 'grp': 'iterables'})
         return cases
 
     # -- pieces
@@ -714,6 +766,12 @@ class Check(PropertyCheck):
             return {'o': o, 'k': self._key(rng, vis)}
         return {'o': o}
 
+    def _iter_arg(self, rng, xs, allow_regions):
+        kind = rng.choice(ITER_KINDS if allow_regions else ITER_KINDS[:-1])
+        if kind == 'regions' and not all(x.startswith('reg:') for x in xs):
+            kind = 'list'
+        return {'xs': xs, 'kind': kind}
+
     def _member(self, rng, p_bad):
         if rng.random() < p_bad:
             return rng.choice(['i:5', 'str:abc', 'None', 'pix:1,2', 'dict:', 'list:1,2'])
@@ -727,7 +785,7 @@ class Check(PropertyCheck):
         if o in ('insert', 'setitem'):
             return {'o': o, 'i': rng.randint(-4, 4), 'x': self._member(rng, 0.3)}
         if o == 'extend_list':
-            return {'o': o, 'xs': [self._member(rng, 0.15) for _ in range(rng.randint(0, 3))], 'tuple': rng.random() < 0.3}
+            return {'o': o, **self._iter_arg(rng, [self._member(rng, 0.15) for _ in range(rng.randint(0, 3))], False)}
         if o == 'extend_regions':
             return {'o': o, 'xs': [self._member(rng, 0.0) for _ in range(rng.randint(0, 3))]}
         if o == 'pop':
@@ -971,9 +1029,7 @@ class Check(PropertyCheck):
             if arg is None:
                 R = Regions()
             else:
-                src = [mkval(n) for n in arg['xs']]
-                if arg['tuple']:
-                    src = tuple(src)
+                src = make_iterable(arg['kind'], [mkval(n) for n in arg['xs']])
                 R = Regions(src)
         except Exception as e:
             return {'ctor': exc_name(e)}
@@ -988,8 +1044,7 @@ class Check(PropertyCheck):
                 if o == 'append':
                     R.append(mkval(l['x']))
                 elif o == 'extend_list':
-                    xs = [mkval(n) for n in l['xs']]
-                    R.extend(tuple(xs) if l['tuple'] else xs)
+                    R.extend(make_iterable(l['kind'], [mkval(n) for n in l['xs']]))
                 elif o == 'extend_regions':
                     R.extend(Regions([mkval(n) for n in l['xs']]))
                 elif o == 'extend_bad':
@@ -1047,7 +1102,7 @@ class Check(PropertyCheck):
             if 'xs' in l:
                 l['xs'] = [self._member_json(n) for n in l['xs']]
             if l['o'] == 'extend_list':
-                l.pop('tuple', None)
+                l.pop('kind')              # every iterable kind behaves alike: it is copied into a list first
             return {'o': 'list', 'l': l}
         return op
 
@@ -1103,7 +1158,7 @@ class Check(PropertyCheck):
         if k == 'list':
             arg = case['arg']
             if arg is not None:
-                arg = {'xs': [self._member_json(n) for n in arg['xs']], 'tuple': arg['tuple']}
+                arg = {'xs': [self._member_json(n) for n in arg['xs']], 'tuple': arg['kind'] == 'tuple'}
             return [{'op': 'c17.list', 'arg': arg, 'ops': [self._op_json(o) for o in case['ops']]}]
         raise ValueError(k)
 
@@ -1269,15 +1324,22 @@ class Check(PropertyCheck):
 
     def _oracle_list(self, case, real):
         V = []
+        arg = case['arg']
+        members = [] if arg is None else [self._member_json(n) for n in arg['xs']]
+        how = 'Regions()' if arg is None else f'Regions(<{arg["kind"]} of {arg["xs"]}>)'
         if real['ctor'] != 'ok':
-            if real['ctor'] not in ('ValueError', 'TypeError', 'KeyError'):
-                V.append({'kind': 'wrong_exception_class', 'detail': f'Regions constructor: {real["ctor"]}'})
+            if real['ctor'] != 'TypeError':
+                V.append({'kind': 'wrong_exception_class', 'detail': f'{how}: {real["ctor"]}'})
+            if all(r for r, _ in members):
+                V.append({'kind': 'domain_value_rejected', 'detail': f'{how} raised {real["ctor"]} although every member is a Region'})
             return V
 
         def nbad(snap):
             return sum(1 for r, _ in snap['it'] if not r)
         if nbad(real['snap0']):
-            V.append({'kind': 'list_nonregion_member', 'via': 'ctor', 'detail': f'Regions constructed with {real["snap0"]["it"]}'})
+            V.append({'kind': 'list_nonregion_member', 'via': 'ctor', 'detail': f'{how} stored {real["snap0"]["it"]}'})
+        elif real['snap0']['it'] != members or real['snap0']['tuple']:
+            V.append({'kind': 'readback_changed', 'detail': f'{how} stored {real["snap0"]} instead of the members in order'})
         prev = real['snap0']
         for i, (op, st) in enumerate(zip(case['ops'], real['steps'])):
             o = op['l']['o']
@@ -1286,6 +1348,17 @@ class Check(PropertyCheck):
             if nbad(st['snap']) > nbad(prev) and o != 'extend_regions':
                 V.append({'kind': 'list_nonregion_member', 'via': o,
                           'detail': f'step {i}: Regions {o} {op["l"]} put a non-Region into the list'})
+            if o == 'extend_list':
+                xs = [self._member_json(n) for n in op['l']['xs']]
+                if not all(r for r, _ in xs):
+                    if st['r'] != 'TypeError':
+                        V.append({'kind': 'list_nonregion_member' if st['r'] == 'ok' else 'wrong_exception_class', 'via': o,
+                                  'detail': f'step {i}: extend(<{op["l"]["kind"]} of {op["l"]["xs"]}>) -> {st["r"]}'})
+                elif st['r'] != 'ok':
+                    V.append({'kind': 'domain_value_rejected', 'detail': f'step {i}: extend of regions only raised {st["r"]}'})
+                elif st['snap']['it'] != prev['it'] + xs:
+                    # every iterable kind, one-shot iterators included (F13d, fixed in 727d915)
+                    V.append({'kind': 'readback_changed', 'detail': f'step {i}: extend(<{op["l"]["kind"]}>) did not append the members in order'})
             prev = st['snap']
         return V
 
